@@ -54,7 +54,9 @@ def _stmt_name(st: ast.stmt, i: int) -> str:
 
 
 def py_statements(src: bytes) -> List[Tuple[str, str]]:
-    tree = ast.parse(src.decode("utf-8"))
+    # bytes, not text: the parser then honours a BOM or a PEP 263 coding cookie exactly as the
+    # interpreter does (a `# -*- coding: latin-1 -*-` hand edit changes every non-ASCII docstring)
+    tree = ast.parse(src)
     _norm_docstrings(tree)
     return [(_stmt_name(st, i), ast.dump(st, annotate_fields=True, include_attributes=False)) for i, st in enumerate(tree.body)]
 
@@ -96,11 +98,15 @@ def rust_items(src: bytes) -> int:
     return len(re.findall(rb"(?m)^(pub )?(struct|enum|type|impl|fn|mod|use|const|trait) ", src))
 
 
-def compare_rust(committed: bytes, generated_path: pathlib.Path, edition: str, rustfmt: str) -> Tuple[Optional[Tuple[str, str]], int]:
-    p = subprocess.run([rustfmt, "--edition", edition, str(generated_path)], capture_output=True, text=True, timeout=300)
+def compare_rust(committed: bytes, generated_path: pathlib.Path, edition: str, rustfmt: str, crate_src: Optional[pathlib.Path] = None) -> Tuple[Optional[Tuple[str, str]], int]:
+    # the formatter pass of the build is `cargo fmt` inside the crate: rustfmt resolves its configuration
+    # (rustfmt.toml / .rustfmt.toml) by walking up from there.  Feeding the generated text on stdin with
+    # the crate's src/ as working directory gives the same resolution and writes nothing into the tree.
+    cwd = str(crate_src) if crate_src is not None and crate_src.is_dir() else None
+    p = subprocess.run([rustfmt, "--edition", edition], input=generated_path.read_bytes(), capture_output=True, timeout=300, cwd=cwd)
     if p.returncode != 0:
-        return ("rust:generated-not-formattable", f"rustfmt failed on the generated lib.rs: {p.stderr[-300:]}"), 0
-    g = generated_path.read_bytes()
+        return ("rust:generated-not-formattable", f"rustfmt failed on the generated lib.rs: {p.stderr.decode('utf-8', 'replace')[-300:]}"), 0
+    g = p.stdout
     n = rust_items(committed)
     if g == committed:
         return None, n
@@ -175,7 +181,7 @@ def execute(run: Dict[str, Any]) -> Dict[str, Any]:
                 if rustfmt is None:
                     raise core.HarnessError("rustfmt not found; cannot apply the formatter pass for the rust comparison")
                 m = re.search(r'(?m)^edition\s*=\s*"(\d+)"', (committed_pkg / "Cargo.toml").read_text()) if (committed_pkg / "Cargo.toml").exists() else None
-                d, compared = compare_rust(committed, gen_file, m.group(1) if m else "2021", rustfmt)
+                d, compared = compare_rust(committed, gen_file, m.group(1) if m else "2021", rustfmt, committed_pkg / "src")
                 if d:
                     viol.append({"sig": d[0], "msg": d[1]})
     finally:
